@@ -171,6 +171,83 @@ MUTS = {
 """, """        part = io.BytesIO(html_content)
         for result in read_html(part, path=path):
 """)]),
+ # ---- round 3: ordinary refactorings that must keep verifying
+ "H6_html_attrs_through_dict_of_generator": (H, [("""        attrs_dict = {k: v for k, v in attrs if v is not None}
+""", """        attrs_dict = dict((k, v) for k, v in attrs if v is not None)
+""")]),
+ "H7_msg_routing_as_conditional_expression": (M, [("""        if _looks_like_html(raw_body):
+            body_plain = _html_to_text(raw_body)
+            body_html = raw_body
+        else:
+            body_plain = raw_body
+            body_html = ""
+""", """        is_html = _looks_like_html(raw_body)
+        body_plain = _html_to_text(raw_body) if is_html else raw_body
+        body_html = raw_body if is_html else ""
+""")]),
+ "H8_html_data_ignores_empty_datum": (H, [("""    def handle_data(self, data: str):
+        if self.skip_depth > 0:
+            return
+""", """    def handle_data(self, data: str):
+        if self.skip_depth > 0 or not data:
+            return
+""")]),
+ "H9_read_html_helpers_and_yield_from": (H, [("""        try:
+            html_text = content.decode(encoding, errors="replace")
+        except (UnicodeDecodeError, LookupError):
+            html_text = content.decode("utf-8", errors="replace")
+""", """        html_text = _decode_html(content, encoding)
+"""), ("""def read_html(
+""", """def _decode_html(raw: bytes, codec: str) -> str:
+    try:
+        return raw.decode(codec, errors="replace")
+    except (UnicodeDecodeError, LookupError):
+        return raw.decode("utf-8", errors="replace")
+
+
+def read_html(
+""")]),
+ "H10_epub_chapter_parser_in_helper": (E, [("""    parser = _XhtmlTextExtractor()
+    try:
+        parser.feed(content)
+    except Exception as e:
+        logger.debug("Failed to parse content document %s: %s", href, e)
+        return None, image_counter, []
+""", """    parser = _parse_xhtml(content)
+    if parser is None:
+        logger.debug("Failed to parse content document %s", href)
+        return None, image_counter, []
+"""), ("""def _extract_chapter(
+""", """def _parse_xhtml(markup: str):
+    extractor = _XhtmlTextExtractor()
+    try:
+        extractor.feed(markup)
+    except Exception:
+        return None
+    return extractor
+
+
+def _extract_chapter(
+""")]),
+ "H11_epub_end_counter_with_max": (E, [("""            if tag == self._skip_tag:
+                self.skip_depth -= 1
+            return
+""", """            if tag == self._skip_tag:
+                self.skip_depth = max(self.skip_depth - 1, 0)
+            return
+""")]),
+ "H12_html_fields_renamed": (H, [("skip_depth", "_skip_level"), ("last_closed", "_last_closed_node"), ("self.stack", "self._open_nodes")]),
+ "H13_html_tables_rewritten_and_renamed": (H, [('REMOVE_TAGS = {"script", "style", "noscript", "iframe", "object", "embed", "applet"}',
+                                                 'REMOVE_TAGS = {"script", "style"} | {"noscript", "iframe", "object", "embed", "applet"}'),
+                                                ("_VOID_TAGS", "_VOID_ELEMENTS")]),
+ "H14_epub_get_text_joins_a_generator": (E, [('text = "".join(self.text_parts)', 'text = "".join(part for part in self.text_parts)')]),
+ "H15_default_charref_conversion": (H, [("""        super().__init__(convert_charrefs=True)
+        # Root node""", """        super().__init__()
+        # Root node""")]),
+ "B17_mhtml_yields_its_own_rendering": (MH, [("""            yield result
+""", """            result.content = html_content.decode("utf-8", "replace")
+            yield result
+""")]),
 }
 
 subprocess.run(["git", "-C", "/repo", "worktree", "remove", "--force", BASE], capture_output=True)
@@ -197,7 +274,7 @@ try:
         p = f"{d}/{rel}"
         s = open(p).read()
         for a, b in edits:
-            assert s.count(a) == 1, (name, a[:60], s.count(a))
+            assert s.count(a) == 1 or (s.count(a) > 1 and "\n" not in a and name.startswith("H1")), (name, a[:60], s.count(a))
             s = s.replace(a, b)
         open(p, "w").write(s)
         r = subprocess.run(["timeout", "600", "./check", "C17"], cwd=ROOT, env=dict(os.environ, VERIF_REPO=d), capture_output=True, text=True)
